@@ -315,7 +315,6 @@ def run(ctx):
         run_history(ctx, rng, kind, ops, 'random')
     check_reply(ctx, rng)
     for k in ('attach', 'detach', 'duplicate-attach', 'interest-hit', 'interest-miss', 'reply-sent', 'reply-late'):
-        if not ctx.events.get(k):
-            ctx.inconclusive(f'monitor {k} observed nothing')
+        ctx.need_event(k)
     ctx.assumptions = ['detaching a never-attached prefix and handler exceptions are outside the statement',
                        'the reply clause is judged on the current front-end (the legacy one has no reply callback)']
